@@ -222,11 +222,14 @@ def enumerate_cases(carver, tier, seed, kinds=("ORD", "QNT", "CAT")):
                     cs = cases_for_table(carver, kind, cells, tier, seed, d_cfg=0, dev_level=0, nan_cells=nan_cells_quick[1:], lean=True)
                 cases += cs
         else:
-            tabs, tr = tables(carver, kind, tier, kmax=4)
+            # full alphabet up to k=3 with the deviation bound 2; k=4 over the quick alphabet with the bound 1
+            tabs, tr = tables(carver, kind, tier, kmax=3)
+            tabs4, tr4 = tables(carver, kind, "quick", kmax=4, alpha=space_alpha(carver, "quick"))
+            tabs, tr = tabs + [t for t in tabs4 if len(t) == 4], tr + tr4
             transitions += tr
             for cells in tabs:
                 k = len(cells)
-                cs = cases_for_table(carver, kind, cells, tier, seed, d_cfg=2 if k <= 3 else 1, dev_level=2 if k <= 3 else 1, nan_cells=list(alpha[:3]) if k <= 3 else list(alpha[1:2]))
+                cs = cases_for_table(carver, kind, cells, tier, seed, d_cfg=2 if k <= 2 else 1, dev_level=2 if k <= 3 else 1, nan_cells=list(alpha[:3]) if k <= 3 else list(alpha[1:2]))
                 cases += cs
             # deeper tables over the quick alphabet, default configuration only
             tabs5, tr5 = tables(carver, kind, "quick", kmax=5, alpha=space_alpha(carver, "quick"))
